@@ -177,3 +177,12 @@ Proof.
   unfold valid_number in Hnum. apply andb_true_iff in Hnum. destruct Hnum as [A B].
   apply Z.leb_le in A. apply Z.leb_le in B. lia.
 Qed.
+
+(* --- C02: the decode transforms are the protobuf rules (narrowing, zig-zag, bool),
+   for EVERY wire value, not only the ones picobuf itself writes *)
+Theorem dec_tr_spec k x : 0 <= x < 2 ^ 64 -> dec_tr k x = spec_conv k x.
+Proof.
+  intros Hx. destruct k; cbn [dec_tr spec_conv]; try reflexivity.
+  - unfold u32, u. rewrite decode_zigzag32_spec; [reflexivity|]. apply Z.mod_pos_bound. lia.
+  - apply decode_zigzag64_spec. exact Hx.
+Qed.
